@@ -68,7 +68,7 @@ def run(ck):
             meaning='UtcDateTime::from_total_nanoseconds(n) differs from from_timespec(split(n))')
     off = I('off', 'i32')
     lt = {'ut_offset': off, 'is_dst': B('isdst'), 'time_zone_designation': {'$d': 0, '$v': {}}}
-    C.pre.append(CMP('>', off, rng('i32')[0]))
+    assume(CMP('>', off, rng('i32')[0]))
     dl = ex.call('DateTime::from_timespec_and_local', [s_, ns_, lt], g=ok)
     dt = ex.call('DateTime::from_total_nanoseconds_and_local', [n, lt])
     A.claim('dt_from_total_equals_from_pair', NOT(AND(IMP(ok, veq(dt, dl)), IMP(NOT(ok), CMP('=', dt['$d'], 1)))), meaning='DateTime::from_total_nanoseconds_and_local differs from the pair constructor')
@@ -119,7 +119,6 @@ def run(ck):
             ck.violation(f'total_nanoseconds_to_timespec({v}): {why}; native says {dv!r}', {'cmd': f'ns_split {v}', 'n': v})
             break
     ck.validated += len(vec) - bad
-    M.C.obl.clear()
     qs = A.decide()
     for q in qs:
         if q.kind in ('claim', 'panic-obligations') and q.verdict == 'sat':
